@@ -231,9 +231,50 @@ def check_form_case(case, st):
         st.violation('target-form:block-count:%s' % tag, d)
 
 
+# ---- the same target listed more than once: every *listed* target yields a result block
+def dup_cases():
+    out = []
+    for lines in (['host0.example', 'host0.example'], ['host0.example', 'host1.example', 'host0.example'], ['host1.example', 'host1.example'],
+                  ['host0.example', ' host0.example ', 'host0.example:22'], ['nosuch.example', 'host0.example', 'nosuch.example']):
+        for fmt in ('text', 'json'):
+            for threads in (1, 3):
+                out.append(('dup', tuple(lines), fmt, threads))
+    return out
+
+
+def check_dup_case(case, st):
+    from mc import runner
+    _t, lines, fmt, threads = case
+    w = MT.build_world(['CLEAN', 'REFUSED'])
+    argv = ['-n', '--skip-rate-test'] + (['-j'] if fmt == 'json' else []) + ['-T', MT.targets_file(list(lines)), '--threads', str(threads)]
+    res = runner.run_cli(argv, w)
+    st.execution(res.world, outcome=('dup', res.status, fmt), root=case, nontrivial=case)
+    d = {'lines': list(lines), 'fmt': fmt, 'threads': threads, 'status': res.status, 'stdout_tail': res.stdout[-300:]}
+    if res.hang or res.exc:
+        st.violation('repeated-target:hang-or-escaped-exception', dict(d, hang=res.hang, exc=res.exc))
+        return
+    n = len(lines)
+    if fmt == 'json':
+        try:
+            doc = json.loads(res.stdout)
+            if not isinstance(doc, list) or len(doc) != n:
+                st.violation('repeated-target:json-array-length', dict(d, got=len(doc) if isinstance(doc, list) else None, listed=n))
+        except ValueError:
+            st.violation('repeated-target:json-not-one-document', d)
+    elif len(MT.split_text(res.stdout)) != n:
+        st.violation('repeated-target:block-count', dict(d, got=len(MT.split_text(res.stdout)), listed=n))
+    bad = any('host1' in l or 'nosuch' in l for l in lines)
+    good = any('host0' in l for l in lines)
+    exp = 1 if bad else MT.run_single('CLEAN', 0, 'text', None, via_targets_file=False).status
+    if res.status != exp:
+        st.violation('repeated-target:exit-status', dict(d, expected=exp))
+
+
 def work(chunk, st):
     for case in chunk:
-        if case[0] == 'form':
+        if case[0] == 'dup':
+            check_dup_case(case, st)
+        elif case[0] == 'form':
             check_form_case(case, st)
         elif len(case) == 3:
             check_syntax_case(case, st)
@@ -276,6 +317,7 @@ def cases(tier):
                 out.append(((a,), th, fmt, 0, conn, None))
     out += syntax_cases()
     out += form_cases()
+    out += dup_cases()
     return out
 
 
@@ -304,7 +346,7 @@ def run(tier, seed):
         PID, tier, seed, st, t0,
         rule='target lists of length 2 (quick; plus one triple per failure) / 2-3 (thorough) mixing healthy archetypes %s with every failure '
              'archetype %s in every position x threads x {text,-j}; DFS over gate schedules (preemption bound quick 1 / thorough 2); plus '
-             'targets-file syntax failures (out-of-range port, blank/whitespace lines); every failing archetype written as [v6]:port, [v6], v6, v4:port, v4, name:port next to a healthy target; non-trivial = distinct (list, threads, format, completion order)' % (HEALTHY, FAILING),
+             'targets-file syntax failures (out-of-range port, blank/whitespace lines); the same target listed two or three times; every failing archetype written as [v6]:port, [v6], v6, v4:port, v4, name:port next to a healthy target; non-trivial = distinct (list, threads, format, completion order)' % (HEALTHY, FAILING),
         assumptions=['thread switches only at virtual I/O gates', 'per-target statuses come from fresh single-target runs in the same environment'],
         exhaustive=True, traces_validated=validated, extra={'cases': len(cs)})
 
